@@ -196,4 +196,172 @@ theorem BIXOR_IND (op op2 : BitVec 16) (st st' : Cpu) (c : BitVec 8) (i : Spec.I
     st' = { st with regs := (specRegCcr i st).1, ccr := (specRegCcr i st).2 } := by
   bitr_ind Spec.instrOf_BIXOR_IND Spec.pat_BIXOR_IND
 
+/-! ### the same instructions on `@aa:8` (H'FFFF00 | aa) -/
+
+theorem abs8_addr (op : BitVec 16) :
+    (0xffff00#24 ||| BitVec.setWidth 24 (BitVec.setWidth 8 (BitVec.extractLsb' 0 8 op))).toNat = (getAddrAbs8 (op.setWidth 8)).toNat := by
+  rw [abs8_toNat]
+  have hx : BitVec.setWidth 8 op = BitVec.setWidth 8 (BitVec.extractLsb' 0 8 op) := by bv_decide
+  rw [hx]
+  have := (0xffff00#24 ||| BitVec.setWidth 24 (BitVec.setWidth 8 (BitVec.extractLsb' 0 8 op))).isLt
+  omega
+
+set_option hygiene false in
+local macro "bitw_abs" il:ident pl:ident : tactic => `(tactic|
+  (rw [$il:ident] at hi; simp only [Option.some.injEq] at hi; subst hi
+   rw [$pl:ident] at hp; simp only [Bool.and_eq_true, beq_iff_eq] at hp
+   first
+     | (have htag : (op2 &&& 0xff0f == 0x7000) = true := by bv_decide)
+     | (have htag : (op2 &&& 0xff0f == 0x7100) = true := by bv_decide)
+     | (have htag : (op2 &&& 0xff0f == 0x7200) = true := by bv_decide)
+     | (have htag : ((0#1) == (0#1)) = true := by decide)
+   simp only [bmodAbs, bstAbs, htag, if_true, bind_ok, pure_ok, get_ok] at h
+   split at h
+   case h_2 => simp at h
+   case h_3 => simp at h
+   rename_i vb sb hbb
+   obtain ⟨e1, e2, _⟩ := busRead_peek _ _ _ _ hbb
+   subst e1
+   split at h
+   case h_2 => simp at h
+   case h_3 => simp at h
+   rename_i u s1 hrw
+   have ew := busWrite_poke _ _ _ _ hrw hsfr
+   subst ew
+   bitcost_subst
+   simp only [specRegCcrBus, Spec.exec, Spec.BitOp.writes, if_true]
+   rw [abs8_addr, e2]
+   generalize Spec.peek sb.bus _ = v
+   generalize sb.ccr = cc
+   congr 2
+   simp only [Spec.bitK, BMod.ap, bstVal, nib, Spec.flag]
+   bv_decide))
+
+set_option hygiene false in
+local macro "bitr_abs" il:ident pl:ident : tactic => `(tactic|
+  (rw [$il:ident] at hi; simp only [Option.some.injEq] at hi; subst hi
+   rw [$pl:ident] at hp; simp only [Bool.and_eq_true, beq_iff_eq] at hp
+   simp only [btstAbs, baccAbs, btstSet, Bool.false_eq_true, if_false, bind_ok, pure_ok, get_ok, readCcr_ok, changeCcr_ok] at h
+   split at h
+   case h_2 => simp at h
+   case h_3 => simp at h
+   rename_i vb sb hbb
+   obtain ⟨e1, e2, _⟩ := busRead_peek _ _ _ _ hbb
+   subst e1
+   try (rw [C04H.writeCcr_val _ _ _ (C04H.bacc_value _ _ _ _)] at h; simp only [bind_ok] at h)
+   bitcost_subst
+   simp only [specRegCcr, Spec.exec, Spec.BitOp.writes, Bool.false_eq_true, if_false]
+   rw [abs8_addr, e2]
+   generalize Spec.peek sb.bus _ = v
+   generalize sb.ccr = cc
+   congr 1
+   simp only [Spec.bitK, BAcc.ap, nib, Spec.flag, Spec.setFlag, changeCcrV]
+   bv_decide))
+
+/-- BSET #imm,@aa:8: exactly the addressed bit of exactly the addressed byte changes -/
+theorem BSET_I_AA8 (op op2 : BitVec 16) (st st' : Cpu) (c : BitVec 8) (i : Spec.Instr)
+    (hp : Spec.Form.pat .BSET_I_AA8 op op2 0 0 0 = true)
+    (hi : Spec.instrOf .BSET_I_AA8 op op2 0 0 0 = some i) (h : bmodAbs .set 0x7000 0x6000 op op2 st = .ok c st')
+    (hsfr : Spec.isSfr (getAddrAbs8 (op.setWidth 8)).toNat = false) :
+    st' = { st with regs := (specRegCcrBus i st).1, ccr := (specRegCcrBus i st).2.1, bus := (specRegCcrBus i st).2.2 } := by
+  bitw_abs Spec.instrOf_BSET_I_AA8 Spec.pat_BSET_I_AA8
+
+/-- BNOT #imm,@aa:8: exactly the addressed bit of exactly the addressed byte changes -/
+theorem BNOT_I_AA8 (op op2 : BitVec 16) (st st' : Cpu) (c : BitVec 8) (i : Spec.Instr)
+    (hp : Spec.Form.pat .BNOT_I_AA8 op op2 0 0 0 = true)
+    (hi : Spec.instrOf .BNOT_I_AA8 op op2 0 0 0 = some i) (h : bmodAbs .not_ 0x7100 0x6100 op op2 st = .ok c st')
+    (hsfr : Spec.isSfr (getAddrAbs8 (op.setWidth 8)).toNat = false) :
+    st' = { st with regs := (specRegCcrBus i st).1, ccr := (specRegCcrBus i st).2.1, bus := (specRegCcrBus i st).2.2 } := by
+  bitw_abs Spec.instrOf_BNOT_I_AA8 Spec.pat_BNOT_I_AA8
+
+/-- BCLR #imm,@aa:8: exactly the addressed bit of exactly the addressed byte changes -/
+theorem BCLR_I_AA8 (op op2 : BitVec 16) (st st' : Cpu) (c : BitVec 8) (i : Spec.Instr)
+    (hp : Spec.Form.pat .BCLR_I_AA8 op op2 0 0 0 = true)
+    (hi : Spec.instrOf .BCLR_I_AA8 op op2 0 0 0 = some i) (h : bmodAbs .clr 0x7200 0x6200 op op2 st = .ok c st')
+    (hsfr : Spec.isSfr (getAddrAbs8 (op.setWidth 8)).toNat = false) :
+    st' = { st with regs := (specRegCcrBus i st).1, ccr := (specRegCcrBus i st).2.1, bus := (specRegCcrBus i st).2.2 } := by
+  bitw_abs Spec.instrOf_BCLR_I_AA8 Spec.pat_BCLR_I_AA8
+
+/-- BST #imm,@aa:8: exactly the addressed bit of exactly the addressed byte changes -/
+theorem BST_AA8 (op op2 : BitVec 16) (st st' : Cpu) (c : BitVec 8) (i : Spec.Instr)
+    (hp : Spec.Form.pat .BST_AA8 op op2 0 0 0 = true)
+    (hi : Spec.instrOf .BST_AA8 op op2 0 0 0 = some i) (h : bstAbs false op op2 st = .ok c st')
+    (hsfr : Spec.isSfr (getAddrAbs8 (op.setWidth 8)).toNat = false) :
+    st' = { st with regs := (specRegCcrBus i st).1, ccr := (specRegCcrBus i st).2.1, bus := (specRegCcrBus i st).2.2 } := by
+  bitw_abs Spec.instrOf_BST_AA8 Spec.pat_BST_AA8
+
+/-- BIST #imm,@aa:8: exactly the addressed bit of exactly the addressed byte changes -/
+theorem BIST_AA8 (op op2 : BitVec 16) (st st' : Cpu) (c : BitVec 8) (i : Spec.Instr)
+    (hp : Spec.Form.pat .BIST_AA8 op op2 0 0 0 = true)
+    (hi : Spec.instrOf .BIST_AA8 op op2 0 0 0 = some i) (h : bstAbs true op op2 st = .ok c st')
+    (hsfr : Spec.isSfr (getAddrAbs8 (op.setWidth 8)).toNat = false) :
+    st' = { st with regs := (specRegCcrBus i st).1, ccr := (specRegCcrBus i st).2.1, bus := (specRegCcrBus i st).2.2 } := by
+  bitw_abs Spec.instrOf_BIST_AA8 Spec.pat_BIST_AA8
+
+/-- BTST #imm,@aa:8: Z := ¬bit on @aa:8: only the one flag changes; registers and memory are untouched -/
+theorem BTST_I_AA8 (op op2 : BitVec 16) (st st' : Cpu) (c : BitVec 8) (i : Spec.Instr)
+    (hp : Spec.Form.pat .BTST_I_AA8 op op2 0 0 0 = true)
+    (hi : Spec.instrOf .BTST_I_AA8 op op2 0 0 0 = some i) (h : btstAbs false op op2 st = .ok c st') :
+    st' = { st with regs := (specRegCcr i st).1, ccr := (specRegCcr i st).2 } := by
+  bitr_abs Spec.instrOf_BTST_I_AA8 Spec.pat_BTST_I_AA8
+
+/-- BLD on @aa:8: only the one flag changes; registers and memory are untouched -/
+theorem BLD_AA8 (op op2 : BitVec 16) (st st' : Cpu) (c : BitVec 8) (i : Spec.Instr)
+    (hp : Spec.Form.pat .BLD_AA8 op op2 0 0 0 = true)
+    (hi : Spec.instrOf .BLD_AA8 op op2 0 0 0 = some i) (h : baccAbs .ld op op2 st = .ok c st') :
+    st' = { st with regs := (specRegCcr i st).1, ccr := (specRegCcr i st).2 } := by
+  bitr_abs Spec.instrOf_BLD_AA8 Spec.pat_BLD_AA8
+
+/-- BILD on @aa:8: only the one flag changes; registers and memory are untouched -/
+theorem BILD_AA8 (op op2 : BitVec 16) (st st' : Cpu) (c : BitVec 8) (i : Spec.Instr)
+    (hp : Spec.Form.pat .BILD_AA8 op op2 0 0 0 = true)
+    (hi : Spec.instrOf .BILD_AA8 op op2 0 0 0 = some i) (h : baccAbs .ild op op2 st = .ok c st') :
+    st' = { st with regs := (specRegCcr i st).1, ccr := (specRegCcr i st).2 } := by
+  bitr_abs Spec.instrOf_BILD_AA8 Spec.pat_BILD_AA8
+
+/-- BAND on @aa:8: only the one flag changes; registers and memory are untouched -/
+theorem BAND_AA8 (op op2 : BitVec 16) (st st' : Cpu) (c : BitVec 8) (i : Spec.Instr)
+    (hp : Spec.Form.pat .BAND_AA8 op op2 0 0 0 = true)
+    (hi : Spec.instrOf .BAND_AA8 op op2 0 0 0 = some i) (h : baccAbs .and op op2 st = .ok c st') :
+    st' = { st with regs := (specRegCcr i st).1, ccr := (specRegCcr i st).2 } := by
+  bitr_abs Spec.instrOf_BAND_AA8 Spec.pat_BAND_AA8
+
+/-- BIAND on @aa:8: only the one flag changes; registers and memory are untouched -/
+theorem BIAND_AA8 (op op2 : BitVec 16) (st st' : Cpu) (c : BitVec 8) (i : Spec.Instr)
+    (hp : Spec.Form.pat .BIAND_AA8 op op2 0 0 0 = true)
+    (hi : Spec.instrOf .BIAND_AA8 op op2 0 0 0 = some i) (h : baccAbs .iand op op2 st = .ok c st') :
+    st' = { st with regs := (specRegCcr i st).1, ccr := (specRegCcr i st).2 } := by
+  bitr_abs Spec.instrOf_BIAND_AA8 Spec.pat_BIAND_AA8
+
+/-- BOR on @aa:8: only the one flag changes; registers and memory are untouched -/
+theorem BOR_AA8 (op op2 : BitVec 16) (st st' : Cpu) (c : BitVec 8) (i : Spec.Instr)
+    (hp : Spec.Form.pat .BOR_AA8 op op2 0 0 0 = true)
+    (hi : Spec.instrOf .BOR_AA8 op op2 0 0 0 = some i) (h : baccAbs .or op op2 st = .ok c st') :
+    st' = { st with regs := (specRegCcr i st).1, ccr := (specRegCcr i st).2 } := by
+  bitr_abs Spec.instrOf_BOR_AA8 Spec.pat_BOR_AA8
+
+/-- BIOR on @aa:8: only the one flag changes; registers and memory are untouched -/
+theorem BIOR_AA8 (op op2 : BitVec 16) (st st' : Cpu) (c : BitVec 8) (i : Spec.Instr)
+    (hp : Spec.Form.pat .BIOR_AA8 op op2 0 0 0 = true)
+    (hi : Spec.instrOf .BIOR_AA8 op op2 0 0 0 = some i) (h : baccAbs .ior op op2 st = .ok c st') :
+    st' = { st with regs := (specRegCcr i st).1, ccr := (specRegCcr i st).2 } := by
+  bitr_abs Spec.instrOf_BIOR_AA8 Spec.pat_BIOR_AA8
+
+/-- BXOR on @aa:8: only the one flag changes; registers and memory are untouched -/
+theorem BXOR_AA8 (op op2 : BitVec 16) (st st' : Cpu) (c : BitVec 8) (i : Spec.Instr)
+    (hp : Spec.Form.pat .BXOR_AA8 op op2 0 0 0 = true)
+    (hi : Spec.instrOf .BXOR_AA8 op op2 0 0 0 = some i) (h : baccAbs .xor op op2 st = .ok c st') :
+    st' = { st with regs := (specRegCcr i st).1, ccr := (specRegCcr i st).2 } := by
+  bitr_abs Spec.instrOf_BXOR_AA8 Spec.pat_BXOR_AA8
+
+/-- BIXOR on @aa:8: only the one flag changes; registers and memory are untouched -/
+theorem BIXOR_AA8 (op op2 : BitVec 16) (st st' : Cpu) (c : BitVec 8) (i : Spec.Instr)
+    (hp : Spec.Form.pat .BIXOR_AA8 op op2 0 0 0 = true)
+    (hi : Spec.instrOf .BIXOR_AA8 op op2 0 0 0 = some i) (h : baccAbs .ixor op op2 st = .ok c st') :
+    st' = { st with regs := (specRegCcr i st).1, ccr := (specRegCcr i st).2 } := by
+  bitr_abs Spec.instrOf_BIXOR_AA8 Spec.pat_BIXOR_AA8
+
+-- non-vacuity of the `hsfr` hypothesis: H'FFFF10 (on-chip RAM reached by @aa:8) is not a special-function register
+example : Spec.isSfr (getAddrAbs8 0x10).toNat = false := by decide
+
 end H8.Props.C04M
